@@ -54,12 +54,12 @@ func runWorker(e *Env, ses *workerlib.Session, maxprocs int, timeout time.Durati
 	if ses.Mode == "cover" {
 		bin = e.Cover
 	}
-	if ses.Variant == "small" {
-		bin = e.Small
+	if v := e.Variants[ses.Variant]; v != nil {
+		bin = v.Bin
 	}
 	cmd := exec.CommandContext(ctx, bin, sesPath)
 	if maxprocs <= 0 {
-		maxprocs = 2
+		maxprocs = 1
 	}
 	if ses.Mode == "cover" {
 		cmd.Env = append(os.Environ(), "VERIF_UNMANAGED=1")
